@@ -31,7 +31,7 @@ which `convert` applies once more, idempotently) -/
 inductive T where
   | tip (name : Nat)
   | bin (l1 : Rat) (t1 : T) (l2 : Rat) (t2 : T)
-  deriving Repr, Inhabited
+  deriving Repr, Inhabited, DecidableEq
 
 /-- PartialTree (d, nodes, score); `L = len(nodes)` -/
 structure PT where
